@@ -223,7 +223,7 @@ def validate(scns, logs, twins=None, *, parallel=10, stats=None, conformance=Tru
     if n == 0:
         return bad, drift
     idx = list(range(n))
-    nsh = max(1, min(parallel, (n + 149) // 150))
+    nsh = max(1, (n + 299) // 300)          # bounded data modules: more runs rather than bigger ones
     shards = [idx[i::nsh] for i in range(nsh)]
     runs = []
     for s in shards:
